@@ -202,3 +202,97 @@ theorem Data.at_mem_flat (d : Data) (i k : Nat) (v : Rat) (h : d.at i k = some v
     rw [this] at h; simp at h
 
 end Pyunicorn.Access
+
+/-! ### float → integer conversions -/
+namespace Pyunicorn.Access
+
+theorem truncInt_bounds {r : Rat} {nb : Int} (h0 : 0 ≤ r) (h1 : r < (nb : Rat)) :
+    0 ≤ truncInt r ∧ truncInt r < nb := by
+  unfold truncInt
+  rw [if_pos h0]
+  constructor
+  · exact Rat.le_floor_iff.mpr (by simpa using h0)
+  · exact Rat.floor_lt_iff.mpr h1
+
+/-- the value that reaches the conversion lies in `[0, n_bins)` -/
+theorem castArg_bounds {s m x : Option Rat} {nb : Int} {r : Rat} (hnb : 1 ≤ nb)
+    (hpos : ∀ sv mv v, s = some sv → m = some mv → x = some v → 0 ≤ sv * (v - mv))
+    (h : castArg s m nb x = some r) : 0 ≤ r ∧ r < (nb : Rat) := by
+  unfold castArg at h
+  split at h
+  · rename_i sv mv v
+    have hp := hpos sv mv v rfl rfl rfl
+    simp only at h
+    split at h
+    · rename_i hlt
+      cases h
+      have hnbpos : (0 : Rat) < (nb : Rat) := by exact_mod_cast (by omega : (0:Int) < nb)
+      constructor
+      · exact Rat.mul_nonneg hp (Rat.le_of_lt hnbpos)
+      · calc sv * (v - mv) * (nb : Rat) < 1 * (nb : Rat) :=
+              Rat.mul_lt_mul_of_pos_right hlt hnbpos
+          _ = nb := by simp
+    · cases h
+  · cases h
+
+theorem castDefined_of_bounds {bits : Nat} {r : Rat} {nb : Int} (h0 : 0 ≤ r) (h1 : r < (nb : Rat))
+    (hb : nb ≤ (2 : Int) ^ (bits - 1)) : castDefined bits r = true := by
+  obtain ⟨t0, t1⟩ := truncInt_bounds h0 h1
+  have hpow : (0 : Int) < (2 : Int) ^ (bits - 1) := Int.pow_pos (by decide)
+  simp only [castDefined, decide_eq_true_eq]
+  omega
+
+theorem castsOK_of {bits N T : Nat} {s m : Option Rat} {nb : Int} {d : Nat → Nat → Option Rat}
+    (h : ∀ i k, i < N → k < T → ∀ r, castArg s m nb (d i k) = some r → castDefined bits r = true) :
+    castsOK bits N T s m nb d = true := by
+  simp only [castsOK, List.all_eq_true, List.mem_range]
+  intro i hi k hk
+  split
+  · rename_i r hr; exact h i k hi hk r hr
+  · rfl
+
+/-- all conversions are defined when no rescaled value is negative and
+`1 ≤ n_bins ≤ 2^(bits-1)` -/
+theorem castsOK_of_pos {bits N T : Nat} {s m : Option Rat} {nb : Int}
+    {d : Nat → Nat → Option Rat} (hnb : 1 ≤ nb) (hb : nb ≤ (2 : Int) ^ (bits - 1))
+    (hpos : ∀ i k sv mv v, s = some sv → m = some mv → d i k = some v → 0 ≤ sv * (v - mv)) :
+    castsOK bits N T s m nb d = true :=
+  castsOK_of fun i k _ _ _ hr =>
+    let b := castArg_bounds hnb (fun sv mv v a b c => hpos i k sv mv v a b c) hr
+    castDefined_of_bounds b.1 b.2 hb
+
+/-- entry of a data array after an entrywise map -/
+theorem Data.at_map (a : Data) (f : Option Rat → Option Rat) (hf : f none = none) (i k : Nat) :
+    Data.at (a.map fun row => row.map f) i k = f (a.at i k) := by
+  unfold Data.at
+  simp only [List.getD_eq_getElem?_getD, List.getElem?_map]
+  cases h : a[i]? with
+  | none => simp [hf]
+  | some row =>
+    simp only [Option.map_some, Option.getD_some, List.getElem?_map]
+    cases h2 : row[k]? with
+    | none => simp [hf]
+    | some x => simp
+
+end Pyunicorn.Access
+
+namespace Pyunicorn.Access
+
+/-- row-major index over the integers -/
+theorem lin2 {i n t m : Int} (hi0 : 0 ≤ i) (hi : i < n) (ht0 : 0 ≤ t) (ht : t < m) :
+    0 ≤ i * m + t ∧ i * m + t < n * m := by
+  have hm : 0 ≤ m := by omega
+  have h1 : 0 ≤ i * m := Int.mul_nonneg hi0 hm
+  have h2 : (i + 1) * m ≤ n * m := Int.mul_le_mul_of_nonneg_right (by omega) hm
+  have h3 : (i + 1) * m = i * m + m := by rw [Int.add_mul, Int.one_mul]
+  omega
+
+/-- start of row `i` of an `n × m` array: the whole row `[i*m, i*m + m)` lies inside -/
+theorem row2 {i n m : Int} (hi0 : 0 ≤ i) (hi : i < n) (hm : 0 ≤ m) :
+    0 ≤ i * m ∧ i * m + m ≤ n * m := by
+  have h1 : 0 ≤ i * m := Int.mul_nonneg hi0 hm
+  have h2 : (i + 1) * m ≤ n * m := Int.mul_le_mul_of_nonneg_right (by omega) hm
+  have h3 : (i + 1) * m = i * m + m := by rw [Int.add_mul, Int.one_mul]
+  omega
+
+end Pyunicorn.Access
